@@ -32,7 +32,7 @@ func init() {
 	register(&Rule{ID: "C12.composite", Floor: 6,
 		Text: "the six composites named by the property (Create, WriteFile, ReadFile, ReadDir, Glob, MkdirTemp) are implemented by the generic avfs helper applied to the wrapper itself, never forwarded to the base's composite",
 		Run:  c12Composite})
-	register(&Rule{ID: "C12.forward", Floor: 60,
+	register(&Rule{ID: "C12.forward", Floor: 60, Also: []string{"C16"}, AlsoOnly: map[string][]string{"C16": {").Chmod forwards"}}, AlsoFloor: map[string]int{"C16": 2},
 		Text: "every FailFS/FailFile method that reaches the base forwards its own parameters positionally to the same-named base method (or avfs helper on the wrapper) and returns its results (OpenFile, CreateTemp, Sub: wrapped)",
 		Run:  c12Forward})
 	register(&Rule{ID: "C12.readonly", Floor: 20,
